@@ -39,7 +39,26 @@ VU = 'utils.validation_utils'
 IU = 'utils.tfl_interpreter_utils'
 
 
+DETAIL_MAPS: set = set()
+
+
+def _signature_loops(f):
+  """(signature key variable, sample variable) of `for K, V in test_data.items(): for S in V:`."""
+  td = f.pos_params[2]
+  outer = [n for n in common.walk_no_nested(f.node) if isinstance(n, ast.For) and defuse.norm(n.iter) == f'{td}.items()'
+           and isinstance(n.target, ast.Tuple) and len(n.target.elts) == 2 and all(isinstance(e, ast.Name) for e in n.target.elts)]
+  if len(outer) != 1:
+    raise index.AnalysisError(f'{f.fq}: expected one loop over {td}.items()')
+  k, v = [e.id for e in outer[0].target.elts]
+  inner = [n for n in ast.walk(outer[0]) if isinstance(n, ast.For) and n is not outer[0] and defuse.norm(n.iter) == v and isinstance(n.target, ast.Name)]
+  if len(inner) != 1:
+    raise index.AnalysisError(f'{f.fq}: expected one loop over the samples of a signature')
+  _signature_loops.outer = outer[0]
+  return k, inner[0].target.id
+
+
 def r1_family(ctx):
+  DETAIL_MAPS.clear()
   R = 'C18.R1'
   ctx.rule(R, 'each tensor is read with the interpreter, detail map and subgraph index of one family', floor=2)
   f = ctx.repo.func(f'{MV}:compare_model')
@@ -52,13 +71,15 @@ def r1_family(ctx):
   if len(setups) != 2:
     raise index.AnalysisError(f'{f.fq}: expected two _setup_validation_interpreter triples, found {len(setups)}')
   fam = {}
+  sig_key, sample = _signature_loops(f)
   for names, call in setups:
     model = ast.unparse(call.args[0])
     for nm in names:
       fam[nm] = model
+    DETAIL_MAPS.add(names[2])
     ctx.instance(R)
     args = [ast.unparse(a) for a in call.args]
-    ctx.check(R, args[1:] == ['signature_input', 'signature_key', 'use_reference_kernel'], call, f, call, 'both families must be invoked with the same input, signature and kernel choice')
+    ctx.check(R, args[1:] == [sample, sig_key, f.pos_params[5]], call, f, call, 'both families must be invoked with the same input, signature and kernel choice')
   models = sorted(set(fam.values()))
   ctx.check(R, models == sorted(f.pos_params[:2]), f.node, f, f'families {models}', 'one family must be the reference model and the other the target model')
   reads = [c for c in common.calls_in(f.node) if common.call_name(c).endswith('get_tensor_data')]
@@ -91,7 +112,7 @@ def r34_pairing_and_metric(ctx, f, fam, results):
   name, detail = [e.id for e in l.target.elts]
   base_family = [fam[k] for k in fam if k in ast.unparse(l.iter)][0]
   ctx.check(R, base_family == f.pos_params[0], l, f, l.iter, 'the tensors compared are those of the reference model')
-  other = [k for k in fam if fam[k] != base_family and 'detail' in k]
+  other = [k for k in fam if fam[k] != base_family and k in DETAIL_MAPS]
   g = cfgmod.build(f.node)
   # the other family's detail is looked up with the loop's own tensor name, under a membership test
   subs = [n for n in ast.walk(l) if isinstance(n, ast.Subscript) and isinstance(n.value, ast.Name) and n.value.id in other]
@@ -115,13 +136,21 @@ def r34_pairing_and_metric(ctx, f, fam, results):
   # object dtype tensors are skipped, nothing else
   skips = [n for n in ast.walk(l) if isinstance(n, ast.If) and any(isinstance(x, ast.Continue) for x in n.body)]
   ctx.check(R, all('np.object_' in ast.unparse(s.test) for s in skips), l, f, 'skips', 'only non-numeric (object dtype) tensors may be skipped')
+  sig_key, _ = _signature_loops(f)
+  sig_loop = _signature_loops.outer
   add = [c for c in common.calls_in(f.node) if common.call_name(c).endswith('add_new_signature_results')]
-  ctx.check(R, len(add) == 1 and [ast.unparse(a) for a in add[0].args][1:] == ['agregated_results', 'signature_key'] or (len(add) == 1 and ast.unparse(add[0].args[-1]) == 'signature_key'), f.node, f, add[0] if add else 'add_new_signature_results', 'results must be filed under the signature they were computed for')
+  agg_name = ast.unparse(agg[0].targets[0].value) if agg and isinstance(agg[0].targets[0], ast.Subscript) else None
+  ok = len(add) == 1 and [ast.unparse(a) for a in add[0].args] == [f.pos_params[3], agg_name, sig_key] and add[0] in list(ast.walk(sig_loop))
+  ctx.check(R, ok, f.node, f, add[0] if add else 'add_new_signature_results', 'results must be filed under the signature they were computed for')
   # results dict is per signature
-  sig_loop = [n for n in common.walk_no_nested(f.node) if isinstance(n, ast.For) and 'test_data' in ast.unparse(n.iter)]
-  res_init = [n for n in common.walk_no_nested(f.node) if isinstance(n, ast.Assign) and isinstance(n.value, ast.Dict) and not n.value.keys and isinstance(n.targets[0], ast.Name) and n.targets[0].id == 'comparison_results']
-  ok = len(sig_loop) == 1 and len(res_init) == 1 and any(x is res_init[0] for x in sig_loop[0].body)
-  ctx.check(R, ok, f.node, f, 'comparison_results = {} per signature', 'per-tensor sample lists must be reset for every signature')
+  samples = None
+  if len(cmp_calls) == 1:
+    st = common.stmt_of(f.node, cmp_calls[0])
+    if isinstance(st, ast.Expr) and isinstance(st.value, ast.Call) and isinstance(st.value.func, ast.Attribute) and isinstance(st.value.func.value, ast.Subscript):
+      samples = ast.unparse(st.value.func.value.value)
+  inits = [n for n in common.walk_no_nested(f.node) if isinstance(n, ast.Assign) and isinstance(n.targets[0], ast.Name) and n.targets[0].id in (samples, agg_name)]
+  ok = samples is not None and len(inits) == 2 and all(isinstance(n.value, ast.Dict) and not n.value.keys and any(x is n for x in sig_loop.body) for n in inits)
+  ctx.check(R, ok, f.node, f, f'{samples} = {{}} / {agg_name} = {{}} per signature', 'per-tensor sample lists and their means must be reset for every signature')
 
 
 def r2_pop_partition(ctx):
@@ -191,9 +220,18 @@ def r6_subgraph_index(ctx):
   gd = ctx.repo.func(f'{IU}:get_tensor_data')
   d = gd.param_default('dequantize')
   ctx.check(R, isinstance(d, ast.Constant) and d.value is True, gd.node, gd, 'dequantize default', 'quantized tensors must be dequantized before comparison by default')
-  src = defuse.norm(gd.node)
-  ctx.check(R, "get_tensor(tensor_detail['index'], subgraph_index)" in src, gd.node, gd, 'get_tensor(detail index, subgraph index)', 'tensor must be read by its own index in the given subgraph')
-  ctx.check(R, 'uniform_dequantize(tensor_data, quant_params)' in src.replace('\n', ' ') and 'from_tfl_tensor_details(tensor_detail)' in src, gd.node, gd, 'dequantize with the tensor\'s own parameters', 'dequantization must use the parameters of the same tensor detail')
+  ip, dp, sp, qp = gd.pos_params[:4]
+  raw = f"{ip}.get_tensor({dp}['index'], {sp})"
+  rets = {}
+  for p in defuse.paths(gd.node):
+    if p.raises is None and p.ret is not None:
+      rets[p.cond_text()] = defuse.norm(p.ret).replace('uniform_quantize_tensor.', '').replace('qtyping.', '')
+  want_deq = f'uniform_dequantize({raw}, UniformQuantParams.from_tfl_tensor_details({dp}))'
+  ctx.check(R, set(rets.values()) == {raw, want_deq}, gd.node, gd, f'returns {sorted(set(rets.values()))}',
+            'the tensor must be read by its own index in the given subgraph and dequantized with the parameters of the same tensor detail')
+  for cond, r in rets.items():
+    if r == want_deq:
+      ctx.check(R, cond.replace(' ', '') in (f'(is_tensor_quantized({dp})and{qp})', f'({qp}andis_tensor_quantized({dp}))'), gd.node, gd, f'dequantize when {cond}', 'dequantization must apply exactly to quantized tensors when requested')
 
 
 def r7_metrics(ctx):
